@@ -220,4 +220,14 @@ def eq_term(a, b):
         return eq_term(a.key, b.key)
     if type(a) is type(b) and not P.is_symbolic(a):
         return z3.BoolVal(a == b)
+    tn = (type(a).__name__, type(b).__name__)
+    if tn == ("SymBinary", "SymBinary"):
+        # int_to_bytes of a symbolic integer: equal bytes iff equal integers
+        return eq_term(a.value, b.value)
+    if tn == ("SymFlags", "SymFlags"):
+        return z3.And(z3.BoolVal(dict(a.table) == dict(b.table)), eq_term(a.raw, b.raw))
+    if tn == ("SymText", "SymText"):
+        if len(a.items) != len(b.items) or a.ops != b.ops or a.encoding != b.encoding:
+            return z3.BoolVal(False)
+        return z3.And(*[eq_term(x, y) for x, y in zip(a.items, b.items)]) if a.items else z3.BoolVal(True)
     return z3.BoolVal(False)
